@@ -117,13 +117,17 @@ class _Arm:
         return self
 
 
+rule("C05.q", "reported fill level of a storage with a coarser frequency: a variable has one mapping row per fine step, each with its share of "
+              "the variable as dispatch factor - the level is accumulated over *every* row, weighted with that factor (and the inflow enters every "
+              "fine step); reduced to one row per variable the whole volume of a coarse step is booked at its first fine step", floor=2,
+     props=["C05", "C13"])
 rule("C05.p", "the series reported for an asset (charge, discharge, internal variables, fill level) are read off the solution: a column of the "
               "report is accumulated from res.x (times the dispatch factor) or taken from fill_level(); no reported column is recomputed from "
               "other reported columns afterwards (netting charge against discharge hides simultaneous charging and discharging: start level "
               "+ efficiency x charge - discharge no longer gives the level)", floor=2, props=["C05", "C01"])
 
 
-@analysis("storage", ["C05.a", "C05.e", "C05.g", "C05.h", "C05.k", "C05.o", "C05.p"])
+@analysis("storage", ["C05.a", "C05.e", "C05.g", "C05.h", "C05.k", "C05.o", "C05.p", "C05.q"])
 def run(ctx):
     p = ctx.p
     sto = p.cls("Storage")
@@ -453,3 +457,42 @@ def run(ctx):
                        "by 1.2" % (au.short(t0, 40), au.short(reads[0], 30) if reads else ""), node=st)
         if n_p == 0:
             ctx.ob("C05.p", xo, "report columns", None, "no column-wise filled report frame found")
+
+
+    # ================================================================= C05.q every row of a variable, weighted
+    flq = p.fn_opt("Storage.fill_level")
+    if flq is None:
+        ctx.ob("C05.q", "Storage", "fill_level", None, "Storage.fill_level not found")
+    else:
+        ffq = ctx.flow(flq)
+        loops = [lp for lp in au.walk_stmts(flq.body) if isinstance(lp, ast.For) and isinstance(lp.iter, ast.Call) and au.method_name(lp.iter) == "iterrows"
+                 and any(isinstance(x, ast.AugAssign) for x in au.walk_stmts(lp.body))]
+        if not loops:
+            ctx.ob("C05.q", flq, "accumulation over mapping rows", None, "no loop over <mapping>.iterrows() that accumulates the level found")
+        for lp in loops:
+            frame = lp.iter.func.value
+            reduced = None
+            seen, todo = set(), [(frame, lp)]
+            while todo:
+                e, at = todo.pop()
+                for x in au.walk_local(e):
+                    if isinstance(x, ast.Call) and au.method_name(x) in ("duplicated", "drop_duplicates", "first", "groupby", "unique"):
+                        reduced = x
+                    if isinstance(x, ast.Name) and isinstance(x.ctx, ast.Load) and (x.id, id(at)) not in seen:
+                        seen.add((x.id, id(at)))
+                        for d in ffq.defs(x.id, at):
+                            if d.kind == "assign" and d.value is not None and len(seen) < 40:
+                                todo.append((d.value, d.node))
+            ctx.ob("C05.q", flq, "rows visited by %s" % au.short(lp, 50).split(":")[0], reduced is None,
+                   "the level is accumulated over a frame reduced to one row per variable (%s): a storage with a coarser frequency spreads each "
+                   "variable over the fine steps of its interval (one row each), the report books the whole volume at the first fine step - reported "
+                   "[24, 24, 24 ...] where the physical level is [1, 2, 3 ...]" % (au.short(reduced, 50) if reduced is not None else ""), node=lp,
+                   key="fill level is accumulated over every mapping row")
+            rowvar = lp.target.elts[1].id if isinstance(lp.target, ast.Tuple) and len(lp.target.elts) == 2 and isinstance(lp.target.elts[1], ast.Name) else None
+            accs = [x for x in au.walk_stmts(lp.body) if isinstance(x, ast.AugAssign)]
+            weighted = all(any((isinstance(y, ast.Subscript) and au.const_str(y.slice) == "disp_factor" and au.base_name(y) == rowvar) or
+                               (isinstance(y, ast.Attribute) and y.attr == "disp_factor" and au.base_name(y) == rowvar) for y in au.walk_local(a.value)) for a in accs)
+            ctx.ob("C05.q", flq, "contribution of a row", weighted if rowvar else None,
+                   "a row's contribution to the level does not carry the row's dispatch factor: with several rows per variable (coarser frequency: "
+                   "shares dt_fine / dt_coarse) every row would add the whole variable", node=(accs[0] if accs else lp),
+                   key="a row contributes its share (dispatch factor) of the variable")
